@@ -66,6 +66,13 @@ func (b *ReadBuffer) add(segIdx int, bs []byte) ([]byte, bool) {
 		// TODO invalid data format. handling error.
 		return nil, false
 	}
+	if b.Msgs[segIdx] != nil {
+		// duplicated datagram: this segment is already in, count it once.
+		return nil, false
+	}
+	if bs == nil {
+		bs = []byte{}
+	}
 	b.SegCount++
 	b.MsgSize += len(bs)
 	b.Msgs[segIdx] = bs
